@@ -287,10 +287,17 @@ def access_covered(path, idx, post=False):
     return False, "no dominating check bounds %s (facts: %s)" % (show(top), "; ".join("%s%s0" % (show(f), op) for op, f in facts[:8]))
 
 
+ITER_PARAMS = ("pos",)       # iterator parameters of the array mutators: positions inside the view (asserted begin <= pos <= end)
+
+
+def iter_param_based(l):
+    return any(a[0] == "sym" and a[1] in ITER_PARAMS for a in lin(l).atoms())
+
+
 def buffer_accesses(path):
     for i, e in enumerate(path.events):
         if e[0] in ("read", "write") and isinstance(e[1], Lin):
-            if has_view_sym(e[1]) or has_view_sym(lin(e[1]) + lin(e[2])):
+            if has_view_sym(e[1]) or has_view_sym(lin(e[1]) + lin(e[2])) or iter_param_based(e[1]):
                 yield i, e
 
 
